@@ -7,8 +7,7 @@ from .shared_py import inn
 from ..pyfront import unparse, try_const, path_conditions, norm_key
 
 
-def ws(s):
-    return re.sub(r'\s+', ' ', s)
+from ..pyfront import ws  # noqa: E402,F401  (whitespace-collapsed, rename/normal-form tolerant `in`)
 
 
 def run(ctx, L, tier):
